@@ -56,16 +56,19 @@ var c08KeyVariants = [3][][2]string{
 	{{"mp/t", "mp/t/u"}, {"mp/t", "mp/u"}, {"mp/a/b", "mp/a"}},
 }
 
+const c08Base = int64(1790000000000000000)
+
 func c08Build(kind, variant int, shape []int) []c08Upd {
 	// shape[i] in 0..3: bit0 = add, bit1 = key
 	ups := make([]c08Upd, len(shape))
 	lastAdd := map[int]int64{}
 	for i, sh := range shape {
-		u := c08Upd{kind: kind, add: sh&1 == 1, key: sh >> 1, ts: int64(10 * (i + 1))}
+		// timestamps have the magnitude of real ones (UnixNano, ~1.79e18) and lie a few ns apart
+		u := c08Upd{kind: kind, add: sh&1 == 1, key: sh >> 1, ts: c08Base + int64(3*(i+1))}
 		kn := c08KeyVariants[kind][variant][u.key]
 		switch kind {
 		case 0:
-			s := &api.SessionMetadatas{SessionID: kn, ClientID: "client", Peer: uint64(1 + u.key), MountPoint: "mp", ConnectedAt: u.ts}
+			s := &api.SessionMetadatas{SessionID: kn, ClientID: "client", Peer: uint64(1 + u.key), MountPoint: "mp", ConnectedAt: u.ts - c08Base}
 			if variant == 1 {
 				s.ClientID = "shared" // sessions sharing a client id
 			}
@@ -298,7 +301,7 @@ func newCrdtWorld(rg *rand.Rand, offsets []int64) *crdtWorld {
 	}
 	distributed.VerifSetClock(func() int64 {
 		w.tick++
-		return 1000000 + w.tick + w.offsets[w.active]
+		return c08Base + w.tick + w.offsets[w.active]
 	})
 	return w
 }
